@@ -2,7 +2,7 @@
    Generic in the entry parser: every statement holds for any parser that is *regular*
    (succeeds exactly when [size] bytes are available, then advances by [size]); the second
    theorem shows that the entry types of the crate are regular with their size_for. *)
-Require Import V.Base.Prim V.Model.Structs V.Model.Table V.Proofs.StructsP V.Proofs.TableP.
+Require Import V.Base.Prim V.Model.Structs V.Model.Table V.Proofs.StructsP V.Proofs.TableP V.Extract.Dispatch V.Proofs.WalkP.
 Open Scope N_scope.
 
 Theorem C09_coherent : forall (T : Type) (parse : buf -> M T) (size : N),
@@ -38,6 +38,13 @@ Theorem C09_nth : forall (T : Type) (parse : buf -> M T) (size : N),
   forall (fuel : nat) n k, k <= table_len size d -> (N.to_nat (table_len size d - k) < fuel)%nat ->
   fst (it_nth parse fuel n d (k * size)) = res_ok (table_get parse size d (k + n)).
 Proof. exact @nth_spec. Qed.
+
+(* what the correspondence check executes for nth / take on a ParsingIterator (the driver's generic
+   walk) is the it_nth / it_take the theorem above is about *)
+Theorem C09_driver_nth : forall (T : Type) (parse : buf -> M T) d fuel n off,
+  g_nth (iter_next parse d) fuel n off = it_nth parse fuel n d off /\
+  g_take (iter_next parse d) fuel n off = it_take parse fuel n d off.
+Proof. intros. split; [apply g_nth_table|apply g_take_table]. Qed.
 
 (* repeated / re-ordered accesses return the same values: get and the iteration are functions
    of (bytes, index) only -- there is no state; in the model this is true by typing. *)
